@@ -1,4 +1,5 @@
 import DcVerif.Lemmas.RingHB
+import DcVerif.Lemmas.RingMultiSafe
 /-!
 # C05 — ring buffer slots: no overwrite before consumption, conflicting slot accesses ordered by happens-before,
 a producer a full ring ahead blocks (single-producer pipelines)
@@ -29,8 +30,14 @@ batch sizes (each ≥ 1), wait strategy (spin *and* blocking) and **every schedu
   conflicting and unordered — F9, exhibited by `c05_same_stage_unordered` in the model and by the driver's clock oracle
   on the implementation's own events.
 
-Partial: single-producer sequencer only (the multi-producer sequencer is judged on implementation events by the
-driver); happens-before over an interleaving semantics stands in for the C11 memory model; the mutex / condvar /
+* (f) multi-producer sequencer (`Model/RingMulti.lean`, any number of writer threads, every schedule): the capacity side —
+  `c05_multi_no_overwrite` (a writer about to write `w` has `w < cur + n` for the published cursor `cur` of *every* handler of
+  *every* stage, and the previous occupant `w − n` of the slot is in every handler's log), `c05_multi_no_lap` (`i < w < i + n`
+  against every handler that is handling `i`), `c05_multi_writers_distinct_slots` (two writers never write the same slot at
+  the same time).
+
+Partial: happens-before (c) is proved for the single-producer sequencer only (for the multi-producer sequencer the slot
+arithmetic (f) is proved, the ordering is judged on implementation events by the driver); happens-before over an interleaving semantics stands in for the C11 memory model; the mutex / condvar /
 `is_done` edges are deliberately not used (fewer edges ⇒ harder to prove ⇒ sound).
 -/
 namespace C05
@@ -352,5 +359,93 @@ theorem c05_same_stage_unordered :
     (sameStageRun.vcC 0 0).ha 0 1 = 0 ∧ (sameStageRun.vcC 0 1).ha 0 0 = 0 := by
   refine ⟨⟨4, 1, fun _ => 2, false, [2], _, by decide, fun _ _ => Nat.zero_lt_two, by decide, rfl⟩, ?_⟩
   decide +kernel
+
+/-! ## (f) multi-producer sequencer: no overwrite before consumption -/
+section Multi
+open RingMulti
+
+/-- **C05 (f), capacity side for the multi-producer sequencer** — every ring size, topology, wait strategy, number of writer
+threads, batch lists, **every schedule**: whenever a writer thread is about to write sequence `w` of its claim (`pc = write`,
+`w ≤ hi`), every handler `(k,j)` of every stage has already *published* a cursor `cur` with `w < cur + n` (so `w ≤ cur + n`,
+the bound of the single producer, with one slot to spare: `has_capacity` is strict). Hence the previous occupant `w − n` of the
+slot has been handed to — and finished by — every handler: it is in every log. `has_capacity` compares against a minimum of
+last-stage cursors read *after* the high watermark and only the winner of the CAS on that same high watermark proceeds; cursors
+only grow, so the fact survives every interleaving. -/
+theorem c05_multi_no_overwrite {x : MSt} (hr : MReachableWF x) (i : Nat) (hi : i < x.P)
+    (hpc : (x.wr i).pc = .write) (hw : (x.wr i).w ≤ (x.wr i).hi) (k j : Nat) (hk : k < x.s.K) (hj : j < x.s.h k) :
+    (x.wr i).w < (x.s.cons k j).cur + x.s.n ∧
+    ∀ q, 1 ≤ q → q + x.s.n ≤ (x.wr i).w → q ∈ (x.s.cons k j).log := by
+  have hc := mreachableWF_cap hr
+  have h1 := (hc.2 i hi).hiLt (Or.inl hpc)
+  have h2 := minG_le_all x hc i hi k j hk hj
+  refine ⟨by omega, fun q hq1 hq2 => ?_⟩
+  exact mem_log_of_le_cur x.s hc.1.2.1 k j hk hj q hq1 (by omega)
+
+/-- the same against a handler that is in the middle of a batch: the writer writing `w` and a handler handling `i` have
+`i < w < i + n`, so they touch different slots (`n = 2^k`: the release-safety invariant is needed for `i < w`) -/
+theorem c05_multi_no_lap {x : MSt} (hr : MReachableWF x) (e : Nat) (hn : x.s.n = 2 ^ e) (i : Nat) (hi : i < x.P)
+    (hpc : (x.wr i).pc = .write) (hw : (x.wr i).w ≤ (x.wr i).hi) (k j : Nat) (hk : k < x.s.K) (hj : j < x.s.h k)
+    (hc : (x.s.cons k j).pc = .handle) (hia : (x.s.cons k j).i ≤ (x.s.cons k j).avail) :
+    (x.s.cons k j).i < (x.wr i).w ∧ (x.wr i).w < (x.s.cons k j).i + x.s.n ∧
+    (x.wr i).w % x.s.n ≠ (x.s.cons k j).i % x.s.n := by
+  have hs := mreachableWF_safe hr e hn
+  have hI := hs.1.1.2.1
+  have h1 := (writing_above_cursor x hs i hi hpc hw).1
+  have h2 := avail_le_cursor x.s hI k j hk hj (by simp [hc])
+  have h3 := (c05_multi_no_overwrite hr i hi hpc hw k j hk hj).1
+  have hci := hI.2 k j hk hj
+  have h4 := hci.nextEq (by simp [hc])
+  have h5 := hci.iGe hc
+  have a : (x.s.cons k j).i < (x.wr i).w := by omega
+  have b : (x.wr i).w < (x.s.cons k j).i + x.s.n := by omega
+  exact ⟨a, b, mod_ne_of_window a b⟩
+
+/-- two writer threads that are both about to write a slot write different slots: their sequences differ (claims are
+disjoint) and both lie in the window `(cursor, cursor + n)` -/
+theorem c05_multi_writers_distinct_slots {x : MSt} (hr : MReachableWF x) (e : Nat) (hn : x.s.n = 2 ^ e) (a b : Nat)
+    (ha : a < x.P) (hb : b < x.P) (hab : a ≠ b)
+    (hpa : (x.wr a).pc = .write) (hwa : (x.wr a).w ≤ (x.wr a).hi)
+    (hpb : (x.wr b).pc = .write) (hwb : (x.wr b).w ≤ (x.wr b).hi) :
+    (x.wr a).w ≠ (x.wr b).w ∧ (x.wr a).w % x.s.n ≠ (x.wr b).w % x.s.n := by
+  have hs := mreachableWF_safe hr e hn
+  obtain ⟨a1, a2⟩ := writing_above_cursor x hs a ha hpa hwa
+  obtain ⟨b1, b2⟩ := writing_above_cursor x hs b hb hpb hwb
+  have hne : (x.wr a).w ≠ (x.wr b).w := by
+    intro he
+    have p1 : wpend (x.wr a) (x.wr a).w := Or.inl ⟨hpa, (hs.2.ws a ha).wGe hpa, hwa⟩
+    have p2 : wpend (x.wr b) (x.wr a).w := by rw [he]; exact Or.inl ⟨hpb, (hs.2.ws b hb).wGe hpb, hwb⟩
+    exact hab (hs.2.disj a b _ ha hb p1 p2)
+  refine ⟨hne, fun hm => hne ?_⟩
+  rcases Nat.le_total (x.wr a).w (x.wr b).w with hle | hle
+  · exact eq_of_mod_eq_window hm hle (by omega)
+  · exact (eq_of_mod_eq_window hm.symm hle (by omega)).symm
+
+/-- non-vacuity of (f): ring of 4, one handler, the ring wraps: writer 0 is about to write sequence 5 (slot 1, previously
+sequence 1) while the handler is handling sequence 3 of the batch 3…4 and has published cursor 2 -/
+def demoMulti : MSt := runM (mkM 4 1 (fun _ => 1) false [[1, 1, 1, 1, 1], [1]])
+  (List.replicate 40 (MTid.writer 0) ++ List.replicate 12 (MTid.cons 0 0) ++ List.replicate 40 (MTid.writer 0) ++
+   List.replicate 4 (MTid.cons 0 0) ++ List.replicate 2 (MTid.writer 0))
+
+example : (demoMulti.wr 0).pc = .write ∧ (demoMulti.wr 0).w = 5 ∧ (demoMulti.wr 0).hi = 5 ∧
+    (demoMulti.s.cons 0 0).pc = .handle ∧ (demoMulti.s.cons 0 0).i = 3 ∧ (demoMulti.s.cons 0 0).avail = 4 ∧
+    (demoMulti.s.cons 0 0).cur = 2 ∧ (demoMulti.s.cons 0 0).log = [1, 2] := by decide +kernel
+
+theorem demoMulti_reachable : MReachableWF demoMulti :=
+  ⟨4, 1, fun _ => 1, false, [[1, 1, 1, 1, 1], [1]], _, by decide, fun _ _ => Nat.one_pos, by decide, rfl⟩
+
+/-- the theorems applied to that state -/
+example : (demoMulti.s.cons 0 0).i < (demoMulti.wr 0).w ∧ (demoMulti.wr 0).w < (demoMulti.s.cons 0 0).i + demoMulti.s.n ∧
+    (demoMulti.wr 0).w % demoMulti.s.n ≠ (demoMulti.s.cons 0 0).i % demoMulti.s.n :=
+  c05_multi_no_lap (x := demoMulti) demoMulti_reachable 2 (by decide +kernel) 0 (by decide +kernel) (by decide +kernel)
+    (by decide +kernel) 0 0 (by decide +kernel) (by decide +kernel) (by decide +kernel) (by decide +kernel)
+
+/-- two writers holding the claims 1 and 2, both about to write -/
+def demoTwoWriters : MSt := runM (mkM 4 1 (fun _ => 1) false [[1], [1]])
+  (List.replicate 6 (MTid.writer 0) ++ List.replicate 6 (MTid.writer 1))
+
+example : (demoTwoWriters.wr 0).pc = .write ∧ (demoTwoWriters.wr 0).w = 1 ∧ (demoTwoWriters.wr 1).pc = .write ∧
+    (demoTwoWriters.wr 1).w = 2 := by decide +kernel
+
+end Multi
 
 end C05
